@@ -74,6 +74,8 @@ def expected_type(col, opts):
         return "INT64", {("TIMESTAMP", unit, bool(col.get("tz")))}
     if k == "timedelta":
         return "INT64", {("TIME", "MICROS", True), ("TIME", "MICROS", False)}
+    if k == "pyobj":
+        return {"int": ("INT64", {None, ("INT", 64, True)}), "bool": ("BOOLEAN", {None}), "float": ("DOUBLE", {None})}[col["sub"]]
     if k == "category":
         lk = col["labels"]
         if lk == "text":
@@ -95,7 +97,7 @@ def expected_slots(col, n, opts, optional):
         if v is MISSING:
             if optional:
                 out.append(None)
-            elif k == "float":
+            elif k == "float" or (k == "pyobj" and col["sub"] == "float"):
                 out.append("NaN")
             elif k in ("datetime", "timedelta"):
                 out.append("NaT")
@@ -110,6 +112,8 @@ def expected_slots(col, n, opts, optional):
             out.append(int(v))
         elif k == "nullable":
             out.append(bool(v) if col["sub"] == "boolean" else int(v))
+        elif k == "pyobj":
+            out.append(float(v).hex() if col["sub"] == "float" else bool(v) if col["sub"] == "bool" else int(v))
         elif k == "float":
             import numpy as np
             f = float(np.float32(v)) if col["sub"] == "float32" else float(v)
@@ -269,11 +273,16 @@ def run_case(case):
                     all(v is MISSING for v in cases.raw_values(col, n)):
                 # nothing to infer the object encoding from: any byte-array annotation is right
                 anns = {None, ("STRING",), ("JSON",)}
+            oe = opts.get("object_encoding", "infer")
+            oe = oe.get(name, "infer") if isinstance(oe, dict) else oe
+            if col["kind"] == "pyobj" and oe == "infer" and all(v is MISSING for v in cases.raw_values(col, n)):
+                # nothing to infer the object encoding from: the library falls back to a text column
+                phys, anns = leaf.physical, {leaf.annotation}
             if leaf.physical != phys or leaf.annotation not in anns:
                 return viol("schema|type|%s" % tag, "column %r stored as %s %r, expected %s %r" % (name, leaf.physical, leaf.annotation, phys, sorted(map(str, anns))),
                             labels=labels)
             # (a text index becomes a `str` column through reset_index on pandas 3: not "object")
-            is_obj = col["kind"] in ("text", "bytes", "json") and col.get("sub") != "str" and col is not fr.get("index")
+            is_obj = col["kind"] in ("text", "bytes", "json", "pyobj") and col.get("sub") != "str" and col is not fr.get("index")
             optional = cases.col_optional(opts, name, is_obj)
             if (leaf.max_def == 1) != optional and n > 0:
                 return viol("schema|repetition|%s" % tag, "column %r max_def=%d but has_nulls=%r implies optional=%r" % (name, leaf.max_def, opts.get("has_nulls"), optional),
